@@ -119,7 +119,9 @@ def judge_job(job):
     p, mu, dt, out = job[:4]
     K = job[4] if len(job) > 4 else 64
     try:
-        return orc.judge(p, mu, dt, out, K=K, compound=(len(job) > 4))
+        if len(job) > 4:
+            return orc.judge_two_halves(p, mu, dt, out, K=K)
+        return orc.judge(p, mu, dt, out, K=K)
     except orc.NoSolution as e:
         return {"nosolution": str(e)}
     except Exception as e:        # decimal signals etc.: treat as "oracle could not judge"
@@ -154,6 +156,15 @@ def run(ctx):
             continue
         got[code] = got.get(code, 0) + 1
         solver_cases.append((meta, p, mu, dt, code, None))
+    # probe of the (fixed, 805dfda) non-termination finding: near-parabolic hyperbola at pericentre whose first Newton
+    # iterate has sqrt(-beta) X in (704, 710): the next iterate overflows to -inf and stumpff_cs3 sees z = -inf.
+    # These inputs exercise the `!isfinite(z)` guard in the model/implementation comparison and the timeout of the driver.
+    for th in (704.25, 705.5, 706.75, 708.0, 709.25, 710.25):
+        for sg in (1, -1):
+            pp = orbit(1.0, 1.0001, 0.0, 1.0)
+            dtp = sg * th * math.sqrt(sum(v * v for v in pp[:3]))
+            solver_cases.append(({"a": 1.0, "e": 1.0001, "anomaly": 0.0, "mu": 1.0, "dt_over_P": dtp / (2 * math.pi),
+                                  "probe": "nonfinite_z_guard"}, pp, 1.0, dtp, ps.predict(pp, 1.0, dtp), None))
     nvar = ctx.scale(100, 800)
     for _ in range(nvar):
         meta, p, mu, dt = gen_case(rng, max_rev=30)
